@@ -25,9 +25,10 @@ META = {
             "until the window closes (C19_atv_accept_transfers, C19_atv_accept_monotone_along_chain, "
             "C19_atv_window_closes); C19_full_premises_satisfiable; the honest BTC context is the shortest connecting one "
             "(C19_honest_vtb_context_minimal). The construction itself is executed against the code: the extracted "
-            "honest_vtbs rebuilds every VTB from (containing block, endorsed height, block of proof) and must equal the "
-            "payload MockMiner::createVTB built (VBK/BTC forks, unreferenced context gaps, distances settlement-1/0/+1), "
-            "and the chain with the model-built VTBs must get the library's verdict. Tie to the code: always-accept oracle on "
+            "honest_vtbs rebuilds every VTB from (containing block, endorsed height, block of proof); it is compared with the "
+            "payload MockMiner::createVTB built (VBK/BTC forks, unreferenced context gaps, distances settlement-1/0/+1; "
+            "differences are counted in the evidence: a longer context chosen by the generator is still honest), "
+            "and the chain with the model-built VTBs must get the library's verdict (the alarm of this stage). Tie to the code: always-accept oracle on "
             "generated honest histories (every endorsable block incl. side forks, window boundaries, VBK/BTC forking, "
             "delivery through blocks and through the mempool), stateless checks, endorsement visible in "
             "containing/endorsedBy/blockOfProof lists, abort handler; extracted model vs library on every verdict. "
@@ -221,8 +222,12 @@ def honest_vtb_stage(ctx):
             else:
                 pth = ctx.replay_path(R.to_replay(g, {"what": "extracted honest_vtbs differs from the VTBs MockMiner built",
                                                       "block": a, "model": mod, "mockminer": impl}))
-                ctx.broken.append("corr:C19HonestDefs.honest_vtbs: first disagreeing input %s: block %s model %s / MockMiner %s"
-                                  % (pth, a, mod, impl))
+                # informational, not an alarm: which already-referenced BTC block MockMiner starts the context after is the
+                # generator's choice of `lastKnownBtc` (a longer context that re-sends a referenced block is still an honest
+                # VTB); the property-relevant comparison is the verdict below (seed 4242 met such a history on the
+                # unchanged tree: DESIGN 12.4)
+                st["construction_differs"] = st.get("construction_differs", 0) + 1
+                st.setdefault("construction_differs_first", "%s: block %s model %s / MockMiner %s" % (pth, a, mod, impl))
             if iv.startswith("SKIP"):
                 continue
             mt, it = mv.split(), iv.split()
